@@ -218,6 +218,16 @@ fn check_infix(case: &Json, stats: &mut Stats) -> Verdict {
             }
         }
     }
+    if ops.iter().all(|o| matches!(*o, "+" | "-" | "*" | "/" | "**" | "<" | "<=" | ">" | ">=" | "==" | "!=")) {
+        // float chains: a negative base makes `(x ** 2.0) ** 0.5` differ from `x ** (2.0 * 0.5)`
+        for first in ["(0.0 - 3.0)", "(0.0 - 0.5)", "1.0e200"] {
+            for rest in [["2.0", "0.5", "2.0"], ["0.5", "2.0", "0.5"], ["2.0", "2.0", "3.0"]] {
+                let mut v = vec![first];
+                v.extend(rest.iter().take(n - 1));
+                assignments.push(v);
+            }
+        }
+    }
     let boundary = assignments.len();
     assignments.extend(candidates(n, budget));
     for (at, vals) in assignments.into_iter().enumerate() {
